@@ -1,8 +1,16 @@
 /-
   Lemmas/IroSolvent — the solvency invariant of an unsettled plan and the per-trade potential of a
   trader (round trips), for every curve oracle `I`.
+
+  The Newton contract is POINTWISE (`NewtonUpperAt I T L sold net`): the step lemmas (`solv_step_at`,
+  `trade_potential_at`) and the run lemma (`run_potential_at`) ask for it only at the exact-spend
+  purchase the step actually EXECUTES (`besPoint`), a history only at its executed purchases
+  (`besPoints`).  The global contract `NewtonUpper` (every sold, every net spend — which the real
+  Newton iteration does not meet on dust inputs) implies every pointwise one; the lemmas under the
+  global contract (`solv_step`, `trade_potential`, `run_potential`) are kept as corollaries.
 -/
 import DymVerif.Lemmas.IroSteps
+import DymVerif.Model.IroNewton
 import Mathlib.Tactic.Linarith
 namespace DymVerif.Iro
 open DymVerif
@@ -23,6 +31,43 @@ def isBes : Op → Bool
   | .bes .. => true
   | _ => false
 
+theorem newtonUpperAtB_iff (I : Int → Int) (T : Int → Int → Option Int) (L : Nat) (sold net : Int) :
+    newtonUpperAtB I T L sold net = true ↔ NewtonUpperAt I T L sold net := by
+  unfold newtonUpperAtB NewtonUpperAt
+  cases h : tokensForExactIn T L sold net with
+  | none => simp
+  | some t => simp
+
+theorem NewtonUpper.at {I : Int → Int} {T : Int → Int → Option Int} {L : Nat} (h : NewtonUpper I T L)
+    (sold net : Int) : NewtonUpperAt I T L sold net := fun t ht => h sold net t ht
+
+/-- the contract at the point of this message (vacuous for everything but an exact-spend purchase) -/
+def BesOkAt (I : Int → Int) (T : Int → Int → Option Int) (st : State) (op : Op) : Prop :=
+  ∀ pt, besPoint st op = some pt → NewtonUpperAt I T pt.1 pt.2.1 pt.2.2
+
+/-- the contract at every point of a list — the BLAME SET of a history is `besPoints` -/
+def NewtonUpperOn (I : Int → Int) (T : Int → Int → Option Int) (pts : List (Nat × Int × Int)) : Prop :=
+  ∀ pt ∈ pts, NewtonUpperAt I T pt.1 pt.2.1 pt.2.2
+
+theorem NewtonUpperOn.head {I : Int → Int} {T : Int → Int → Option Int} {st : State} {o : Op} {os : List Op}
+    (h : NewtonUpperOn I T (besPoints I T st (o :: os))) : (step I T st o).2 = .ok → BesOkAt I T st o := by
+  intro hok pt hpt
+  apply h
+  simp only [besPoints, hok, if_true, List.mem_append]
+  exact Or.inl (by simp [hpt])
+
+theorem NewtonUpperOn.tail {I : Int → Int} {T : Int → Int → Option Int} {st : State} {o : Op} {os : List Op}
+    (h : NewtonUpperOn I T (besPoints I T st (o :: os))) : NewtonUpperOn I T (besPoints I T (step I T st o).1 os) := by
+  intro pt hpt
+  apply h
+  simp only [besPoints, List.mem_append]
+  exact Or.inr hpt
+
+/-- the global contract covers every history -/
+theorem NewtonUpper.on {I : Int → Int} {T : Int → Int → Option Int} (st : State) (ops : List Op)
+    (h : ∀ pt ∈ besPoints I T st ops, NewtonUpper I T pt.1) : NewtonUpperOn I T (besPoints I T st ops) :=
+  fun pt hpt => (h pt hpt).at _ _
+
 /-- exact bounds of a positive cost -/
 theorem cost_pos_bounds {I : Int → Int} {L : Nat} {x x1 : Int} (h : 0 < cost I L x x1) :
     decP * cost I L x x1 ≤ pow10 L * (I x1 - I x) ∧ pow10 L * (I x1 - I x) < decP * (cost I L x x1 + 1) := by
@@ -31,12 +76,13 @@ theorem cost_pos_bounds {I : Int → Int} {L : Nat} {x x1 : Int} (h : 0 < cost I
   rw [Int.mul_comm (pow10 L)]
   exact ⟨this.2.1, this.2.2⟩
 
-theorem solv_step {I : Int → Int} {T : Int → Int → Option Int} {st : State} (op : Op)
-    (hs : Solv I st) (hN : isBes op = true → ∀ p, st.plan = some p → NewtonUpper I T p.L) :
+theorem solv_step_at {I : Int → Int} {T : Int → Int → Option Int} {st : State} (op : Op)
+    (hs : Solv I st) (hN : (step I T st op).2 = .ok → BesOkAt I T st op) :
     Solv I (step I T st op).1 := by
-  rcases step_cases I T st op with h | ⟨_, h⟩
+  rcases step_cases I T st op with h | ⟨hact, h⟩
   · rw [h]; exact hs
-  · generalize (step I T st op).1 = st' at h
+  · have hB := hN (congrArg Prod.snd (step_of_exec_ok hact h))
+    generalize (step I T st op).1 = st' at h
     obtain ⟨hs0, hs1⟩ := hs
     have hd := decP_pos
     cases op with
@@ -79,7 +125,7 @@ theorem solv_step {I : Int → Int} {T : Int → Int → Option Int} {st : State
     | bes a sp mt =>
       obtain ⟨p, net, fee, tokens, l1, ht, _, hf, htk, _, _, _, _, _, rfl⟩ := doBes_ok h
       obtain ⟨hp, hns, _⟩ := tradeable_ok ht
-      have hc := hN rfl p hp p.sold net tokens htk
+      have hc := hB (p.L, p.sold, net) (by simp [besPoint, hp, hf]) tokens htk
       have ih := hs1 p hp hns
       refine ⟨by simp, ?_⟩
       intro q hq _
@@ -133,6 +179,27 @@ theorem solv_step {I : Int → Int} {T : Int → Int → Option Int} {st : State
     | xfer a b amt =>
       obtain ⟨_, _, rfl⟩ := doXfer_ok h
       exact ⟨hs0, hs1⟩
+    | chown a b =>
+      obtain ⟨_, _, rfl⟩ := doChown_ok h
+      exact ⟨hs0, hs1⟩
+
+/-- the same under the global contract for the plan's liquidity decimals -/
+theorem solv_step {I : Int → Int} {T : Int → Int → Option Int} {st : State} (op : Op)
+    (hs : Solv I st) (hN : isBes op = true → ∀ p, st.plan = some p → NewtonUpper I T p.L) :
+    Solv I (step I T st op).1 := by
+  apply solv_step_at op hs
+  intro _ pt hpt
+  cases op with
+  | bes a sp mt =>
+    simp only [besPoint] at hpt
+    split at hpt
+    · cases hpt
+    · rename_i p hp
+      split at hpt
+      · cases hpt
+        exact (hN rfl p hp).at _ _
+      · cases hpt
+  | _ => simp [besPoint] at hpt
 
 /-! ### round trips: a trader's potential `10^18·liq a + 10^L·I(sold)` strictly decreases at each of its trades -/
 
@@ -143,14 +210,15 @@ def isTradeBy (a : Nat) : Op → Bool
 def potential (I : Int → Int) (L : Nat) (st : State) (a : Nat) (sold : Int) : Int :=
   decP * st.liq a + pow10 L * I sold
 
-theorem trade_potential {I : Int → Int} {T : Int → Int → Option Int} {st : State} {a : Nat} (op : Op)
-    (hop : isTradeBy a op = true) {p : Plan} (hN : isBes op = true → NewtonUpper I T p.L) (hp : st.plan = some p) :
+theorem trade_potential_at {I : Int → Int} {T : Int → Int → Option Int} {st : State} {a : Nat} (op : Op)
+    (hop : isTradeBy a op = true) {p : Plan} (hN : (step I T st op).2 = .ok → BesOkAt I T st op) (hp : st.plan = some p) :
     (step I T st op).1 = st ∨
     ∃ p', (step I T st op).1.plan = some p' ∧ p'.L = p.L ∧
       potential I p.L (step I T st op).1 a p'.sold < potential I p.L st a p.sold := by
-  rcases step_cases I T st op with h | ⟨_, h⟩
+  rcases step_cases I T st op with h | ⟨hact, h⟩
   · exact Or.inl h
   · right
+    have hB := hN (congrArg Prod.snd (step_of_exec_ok hact h))
     generalize (step I T st op).1 = st' at h
     have hd := decP_pos
     unfold potential
@@ -174,7 +242,7 @@ theorem trade_potential {I : Int → Int} {T : Int → Int → Option Int} {st :
       obtain ⟨hq, _, _⟩ := tradeable_ok ht
       rw [hp] at hq; cases hq
       obtain ⟨_, hfp, _, _⟩ := applyTakerFee_some hf
-      have hc := hN rfl p.sold net tokens htk
+      have hc := hB (p.L, p.sold, net) (by simp [besPoint, hp, hf]) tokens htk
       have hl1 := (chargeFee_self hl hfp).1
       refine ⟨_, rfl, rfl, ?_⟩
       simp only [upd, if_true]
@@ -200,9 +268,53 @@ theorem trade_potential {I : Int → Int} {T : Int → Int → Option Int} {st :
     | claim _ => simp [isTradeBy] at hop
     | claimv _ => simp [isTradeBy] at hop
     | xfer _ _ _ => simp [isTradeBy] at hop
+    | chown _ _ => simp [isTradeBy] at hop
+
+theorem besOkAt_of_global {I : Int → Int} {T : Int → Int → Option Int} {st : State} {p : Plan}
+    (hp : st.plan = some p) (op : Op) (hN : isBes op = true → NewtonUpper I T p.L) : BesOkAt I T st op := by
+  intro pt hpt
+  cases op with
+  | bes a sp mt =>
+    simp only [besPoint, hp] at hpt
+    split at hpt
+    · cases hpt
+      exact (hN rfl).at _ _
+    · cases hpt
+  | _ => simp [besPoint] at hpt
+
+theorem trade_potential {I : Int → Int} {T : Int → Int → Option Int} {st : State} {a : Nat} (op : Op)
+    (hop : isTradeBy a op = true) {p : Plan} (hN : isBes op = true → NewtonUpper I T p.L) (hp : st.plan = some p) :
+    (step I T st op).1 = st ∨
+    ∃ p', (step I T st op).1.plan = some p' ∧ p'.L = p.L ∧
+      potential I p.L (step I T st op).1 a p'.sold < potential I p.L st a p.sold :=
+  trade_potential_at op hop (fun _ => besOkAt_of_global hp op hN) hp
 
 theorem run_cons (I : Int → Int) (T : Int → Int → Option Int) (st : State) (o : Op) (ops : List Op) :
     run I T st (o :: ops) = run I T (step I T st o).1 ops := rfl
+
+/-- trades of one trader, the contract demanded only at the exact-spend purchases the run executes -/
+theorem run_potential_at {I : Int → Int} {T : Int → Int → Option Int} {a : Nat} (ops : List Op) :
+    ∀ (st : State) (p : Plan), st.plan = some p →
+      (∀ o ∈ ops, isTradeBy a o = true) → NewtonUpperOn I T (besPoints I T st ops) →
+      run I T st ops = st ∨
+      ∃ p', (run I T st ops).plan = some p' ∧ p'.L = p.L ∧
+        potential I p.L (run I T st ops) a p'.sold < potential I p.L st a p.sold := by
+  induction ops with
+  | nil => intro st p _ _ _; exact Or.inl rfl
+  | cons o ops ih =>
+    intro st p hp hops hN
+    rw [run_cons]
+    have ho := hops o (by simp)
+    have hops' : ∀ o' ∈ ops, isTradeBy a o' = true := fun o' h => hops o' (by simp [h])
+    rcases trade_potential_at (T := T) o ho hN.head hp with h1 | ⟨p1, hp1, hL1, hlt1⟩
+    · have hN' := hN.tail
+      rw [h1] at hN' ⊢
+      exact ih st p hp hops' hN'
+    · rcases ih _ p1 hp1 hops' hN.tail with h2 | ⟨p2, hp2, hL2, hlt2⟩
+      · rw [h2]; exact Or.inr ⟨p1, hp1, hL1, hlt1⟩
+      · refine Or.inr ⟨p2, hp2, by rw [hL2, hL1], ?_⟩
+        rw [hL1] at hlt2
+        exact Int.lt_trans hlt2 hlt1
 
 theorem run_potential {I : Int → Int} {T : Int → Int → Option Int} {a : Nat} (ops : List Op) :
     ∀ (st : State) (p : Plan), st.plan = some p →
